@@ -12,6 +12,7 @@ import (
 	"encoding/json"
 	"fmt"
 	"os"
+	"sync"
 
 	"verifharness/internal/gen"
 	"verifharness/internal/run"
@@ -89,6 +90,14 @@ func genWatchKind(r *gen.R, kind string) (sched.Scenario, sched.Chooser) {
 		sc.Actors = [][]sched.Op{
 			append([]sched.Op{{Kind: "watch", Stream: 1, Scope: scope}}, genPolls(r, 1, 3+r.N(2))...),
 			{{Kind: "ins"}, {Kind: []string{"drop", "dropdb"}[r.N(2)]}, {Kind: "ins"}},
+		}
+		if r.P(35) {
+			// a collection stream on a collection that does not exist: only the dropDatabase event
+			// (which carries no ns.coll) can invalidate it
+			sc.Actors = [][]sched.Op{
+				append([]sched.Op{{Kind: "watch", Stream: 1, Scope: "coll", DB: "other", Coll: "zz"}}, genPolls(r, 1, 2+r.N(2))...),
+				{{Kind: "ins", DB: "other"}, {Kind: "dropdb", DB: "other"}, {Kind: "ins", DB: "other", Coll: "zz"}},
+			}
 		}
 		if r.P(40) {
 			sc.Actors = append(sc.Actors, []sched.Op{genWrite(r)})
@@ -211,8 +220,50 @@ func withSchedule(o *sched.Outcome) sched.Scenario {
 }
 
 func watchGen(r *gen.R, idx int) []run.Case {
+	if os.Getenv("VERIF_TIER") == "thorough" {
+		return watchThorough()
+	}
 	sc, ch := genWatchScenario(r)
 	return []run.Case{watchCase(sc, ch)}
+}
+
+var watchThoroughOnce sync.Once
+
+// watchThorough: exhaustive DFS over all hook-level interleavings of tiny consumer/writer scripts.
+func watchThorough() []run.Case {
+	var out []run.Case
+	watchThoroughOnce.Do(func() {
+		budget := 4000
+		if b := os.Getenv("VERIF_DFS_BUDGET"); b != "" {
+			fmt.Sscanf(b, "%d", &budget)
+		}
+		w := func(scope, start string) sched.Op { return sched.Op{Kind: "watch", Stream: 1, Scope: scope, Start: start} }
+		nx, tn := sched.Op{Kind: "next", Stream: 1}, sched.Op{Kind: "trynext", Stream: 1}
+		tiny := []sched.Scenario{
+			{Kind: "deliver", Watch: true, Actors: [][]sched.Op{{w("client", ""), nx}, {{Kind: "ins"}}}},
+			{Kind: "deliver", Watch: true, Actors: [][]sched.Op{{w("coll", ""), nx, tn}, {{Kind: "ins", Coll: "d"}, {Kind: "ins"}}}},
+			{Kind: "deliver", Watch: true, Actors: [][]sched.Op{{w("db", ""), nx}, {{Kind: "ins", DB: "other"}}, {{Kind: "inc"}}}},
+			{Kind: "drop", Watch: true, Actors: [][]sched.Op{{w("coll", ""), nx, nx}, {{Kind: "drop"}}}},
+			{Kind: "wake", Watch: true, Actors: [][]sched.Op{{w("client", ""), nx}, {{Kind: "close"}}}},
+			{Kind: "wake", Watch: true, Actors: [][]sched.Op{{w("client", ""), nx}, {{Kind: "sclose", Stream: 1}}}},
+			{Kind: "wake", Watch: true, AllowCancel: true, Actors: [][]sched.Op{{w("client", ""), nx}, {{Kind: "find"}}}},
+			{Kind: "retention", Watch: true, Preload: 5, MinOplog: 2, MaxOplog: 3, Actors: [][]sched.Op{{w("client", "old:1"), tn, tn}, {{Kind: "ins"}}}},
+		}
+		for _, sc := range tiny {
+			runs, complete := sched.Explore(sc, budget, 0, func(o *sched.Outcome) bool {
+				c := schedCaseOf(o, "watch")
+				scj, _ := json.Marshal(withSchedule(o))
+				for _, v := range sched.CheckStreams(o) {
+					c.Viols = append(c.Viols, run.Violation{Property: v.Property, What: v.What, Witness: v.Witness, Req: string(scj), Detail: v.Detail})
+				}
+				c.Tags = append(c.Tags, "dfs")
+				out = append(out, c)
+				return true
+			})
+			fmt.Fprintf(os.Stderr, "watch dfs: kind %s: %d interleavings, exhaustive=%v\n", sc.Kind, runs, complete)
+		}
+	})
+	return out
 }
 
 func watchReplay(req string) string {
@@ -244,16 +295,17 @@ func watchCorpus() []run.Case {
 			{{Kind: "ins"}, {Kind: "ins"}},
 		}}
 		// the consumer opens the stream, the writer commits (discarding old events), then the consumer polls
-		ch := &sched.Directed{Steps: []sched.Directive{{Actor: 1, Until: "op.start"}, {Actor: 1, Until: "op.start"}, {Actor: 2, Until: "done"}, {Actor: 1, Until: "done"}}}
+		ch := &sched.Directed{Steps: []sched.Directive{{Actor: 1, Until: "op.start"}, {Actor: 2, Until: "done"}, {Actor: 1, Until: "done"}}}
 		out = append(out, watchCase(sc, ch))
 	}
 	// opened on an EMPTY oplog (last == nil), then retention discards the first events
 	{
 		sc := sched.Scenario{Kind: "retention", Watch: true, EmptyStart: true, MinOplog: 1, MaxOplog: 2, Actors: [][]sched.Op{
 			{{Kind: "watch", Stream: 1, Scope: "client"}, {Kind: "trynext", Stream: 1}},
-			{{Kind: "ins"}, {Kind: "ins"}, {Kind: "ins"}, {Kind: "ins"}},
+			// events of the current second are never discarded: let the first two grow one second old
+			{{Kind: "ins"}, {Kind: "ins"}, {Kind: "sleep", N: 1100}, {Kind: "ins"}, {Kind: "ins"}},
 		}}
-		ch := &sched.Directed{Steps: []sched.Directive{{Actor: 1, Until: "op.start"}, {Actor: 1, Until: "op.start"}, {Actor: 2, Until: "done"}, {Actor: 1, Until: "done"}}}
+		ch := &sched.Directed{Steps: []sched.Directive{{Actor: 1, Until: "op.start"}, {Actor: 2, Until: "done"}, {Actor: 1, Until: "done"}}}
 		out = append(out, watchCase(sc, ch))
 	}
 	// the same with a real position: must be explicit (ErrLostOplogPosition)
@@ -262,7 +314,8 @@ func watchCorpus() []run.Case {
 			{{Kind: "watch", Stream: 1, Scope: "client", Start: "old:1"}, {Kind: "trynext", Stream: 1}, {Kind: "trynext", Stream: 1}, {Kind: "trynext", Stream: 1}},
 			{{Kind: "ins"}, {Kind: "ins"}},
 		}}
-		ch := &sched.Directed{Steps: []sched.Directive{{Actor: 1, Until: "op.start"}, {Actor: 1, Until: "op.start"}, {Actor: 1, Until: "op.start"}, {Actor: 2, Until: "done"}, {Actor: 1, Until: "done"}}}
+		// the consumer opens the stream and delivers one event, then the writer discards its position
+		ch := &sched.Directed{Steps: []sched.Directive{{Actor: 1, Until: "op.start"}, {Actor: 1, Until: "op.start"}, {Actor: 2, Until: "done"}, {Actor: 1, Until: "done"}}}
 		out = append(out, watchCase(sc, ch))
 	}
 	// writer commits between the consumer's oplog read and its wait
@@ -275,6 +328,15 @@ func watchCorpus() []run.Case {
 			ch := &sched.Directed{Steps: []sched.Directive{{Actor: 1, Until: at}, {Actor: 2, Until: "done"}, {Actor: 1, Until: "done"}}}
 			out = append(out, watchCase(sc, ch))
 		}
+	}
+	// a collection stream whose collection does not exist is invalidated by dropDatabase alone
+	{
+		sc := sched.Scenario{Kind: "drop", Watch: true, Actors: [][]sched.Op{
+			{{Kind: "watch", Stream: 1, Scope: "coll", DB: "other", Coll: "zz"}, {Kind: "next", Stream: 1}, {Kind: "next", Stream: 1}, {Kind: "trynext", Stream: 1}},
+			{{Kind: "ins", DB: "other"}, {Kind: "dropdb", DB: "other"}, {Kind: "ins", DB: "other", Coll: "zz"}},
+		}}
+		ch := &sched.Directed{Steps: []sched.Directive{{Actor: 1, Until: "op.start"}, {Actor: 2, Until: "done"}, {Actor: 1, Until: "done"}}}
+		out = append(out, watchCase(sc, ch))
 	}
 	// drops end the stream with invalidate
 	for _, d := range []string{"drop", "dropdb"} {
